@@ -42,6 +42,7 @@ type vresult struct {
 	Kind, Violation string
 	Trace           []string
 	HadToWait       int // waiters launched while their condition was false that returned later
+	Goroutines      string
 }
 
 type vevent struct{ w, ret int }
@@ -64,6 +65,9 @@ func runValueWaits(v0 int, ops []vop, waiters []vwaiter, finish func(cur int, ou
 		if res.Kind == "" {
 			res.Kind, res.Violation = kind, fmt.Sprintf(f, a...)
 			trace("VIOLATION %s: %s", kind, res.Violation)
+			if kind == "not_woken" {
+				res.Goroutines = ctl.Dump()
+			}
 		}
 	}
 	handle := func(ev vevent) {
@@ -89,15 +93,11 @@ func runValueWaits(v0 int, ops []vop, waiters []vwaiter, finish func(cur int, ou
 		}
 	}
 	waitEvent := func(d time.Duration) bool {
-		t := time.NewTimer(d)
-		defer t.Stop()
-		select {
-		case ev := <-events:
+		ev, ok := patientRecv(events, d)
+		if ok {
 			handle(ev)
-			return true
-		case <-t.C:
-			return false
 		}
+		return ok
 	}
 	outstanding := func(satisfiedBy *int) []int {
 		var out []int
@@ -199,7 +199,11 @@ func vpayload(obj string, v0 int, ops []vop, waiters []vwaiter, res vresult) map
 	for _, w := range waiters {
 		ws = append(ws, fmt.Sprintf("%s launched after %d mutations", w.Name, w.Start))
 	}
-	return map[string]any{"object": obj, "initial": v0, "mutations": os, "waiters": ws, "kind": res.Kind, "observed": res.Violation, "trace": res.Trace}
+	m := map[string]any{"object": obj, "initial": v0, "mutations": os, "waiters": ws, "kind": res.Kind, "observed": res.Violation, "trace": res.Trace}
+	if res.Goroutines != "" {
+		m["goroutines_at_hang"] = res.Goroutines
+	}
+	return m
 }
 
 func vkey(v0 int, ops []vop, waiters []vwaiter) string {
@@ -408,15 +412,11 @@ func runPopOrWait(c powCase) (kind, violation string, trace []string, waited int
 		}
 	}
 	waitEvent := func() bool {
-		t := time.NewTimer(ctl.HangTimeout)
-		defer t.Stop()
-		select {
-		case ev := <-events:
+		ev, ok := patientRecv(events, ctl.HangTimeout)
+		if ok {
 			handle(ev)
-			return true
-		case <-t.C:
-			return false
 		}
+		return ok
 	}
 	quiesce := func() {
 		for kind == "" && outstanding > 0 && s.Size() > 0 {
@@ -470,7 +470,7 @@ func runPopOrWait(c powCase) (kind, violation string, trace []string, waited int
 	shutdownIssued.Store(true)
 	running.Store(false)
 	tr("running=false; SignalShutdown()")
-	if !ctl.Within(ctl.HangTimeout, s.SignalShutdown) {
+	if !withinHang(s.SignalShutdown) {
 		fail("not_woken", "SignalShutdown did not return within %s", ctl.HangTimeout)
 	}
 	for kind == "" && outstanding > 0 {
@@ -503,7 +503,7 @@ func runPopOrWait(c powCase) (kind, violation string, trace []string, waited int
 		s.Push(1000 + i)
 	}
 	for i := 0; i < c.Bystander && kind == ""; i++ {
-		if !ctl.WaitChan(byDone, ctl.HangTimeout) {
+		if !waitHang(byDone) {
 			fail("not_woken", "size is 7 but a WaitSizeIsAbove(6) waiter did not return within %s", ctl.HangTimeout)
 		}
 	}
@@ -578,7 +578,7 @@ func runShutdownWindow(c windowCase) (violation string) {
 		})
 		done <- ok
 	}()
-	if !ctl.WaitChan(inWindow, ctl.HangTimeout) {
+	if !waitHang(inWindow) {
 		return "harness: the parked waiter never evaluated its wait condition"
 	}
 	running.Store(false)
@@ -586,17 +586,16 @@ func runShutdownWindow(c windowCase) (violation string) {
 	go func() { s.SignalShutdown(); close(sigDone) }()
 	ctl.WaitChan(sigDone, 2*time.Millisecond)
 	close(release)
-	if !ctl.WaitChan(sigDone, ctl.HangTimeout) {
+	if !waitHang(sigDone) {
 		return fmt.Sprintf("SignalShutdown did not return within %s", ctl.HangTimeout)
 	}
 	for i := 0; i < c.Sleepers+1; i++ {
-		select {
-		case ok := <-done:
-			if ok {
-				return "PopOrWait returned an element from an empty stack"
-			}
-		case <-time.After(ctl.HangTimeout):
+		ok, returned := patientRecv(done, ctl.HangTimeout)
+		if !returned {
 			return fmt.Sprintf("wait condition is false and SignalShutdown has returned, but %d of %d PopOrWait waiter(s) did not return within %s (the waiter evaluated its condition just before SignalShutdown and then went to sleep: missed wake-up)", c.Sleepers+1-i, c.Sleepers+1, ctl.HangTimeout)
+		}
+		if ok {
+			return "PopOrWait returned an element from an empty stack"
 		}
 	}
 	if c.PushLate {
@@ -641,7 +640,7 @@ func TestStackShutdownRace(t *testing.T) {
 		}
 		running.Store(false)
 		s.SignalShutdown()
-		if !ctl.WaitChan(done, ctl.HangTimeout) {
+		if !waitHang(done) {
 			stats.Violation(check, map[string]any{"trial": i, "yields": i % 4, "observed": "PopOrWait did not return after running=false; SignalShutdown()"})
 			t.Fatalf("trial %d: PopOrWait(running) did not return within %s after running=false; SignalShutdown()", i, ctl.HangTimeout)
 		}
